@@ -28,6 +28,7 @@ SUBJ = {
  ("C15","quantifier-star"): "printed quantifiers and len",
  ("C15","len-star"): "printed quantifiers and len",
  ("C08","not-comparison"): "negates the comparison, as in Python",
+ ("C18","repetition-cap-leak"): "every run starts from the default repetition cap",
 }
 log = subprocess.check_output(["git","-C","/repo","log","--format=%h %s"]).decode().splitlines()
 k = json.load(open("/verif/known_findings.json"))
